@@ -5,10 +5,26 @@ import json, os, subprocess
 ROOT = os.path.dirname(os.path.dirname(os.path.abspath(__file__)))
 
 CHECKS = {
- "C01": ("reference-model oracle at the API boundary: accessor sweep of index(push(v)) over a typed catalogue, two build profiles",
-         "5"),
- "C02": ("reference-model oracle: all issued indices re-read after every operation of random, long and bounded-exhaustive histories, two build profiles",
-         "5"),
+ "C01": ("reference-model oracle at the API boundary: full accessor sweep of index(push(v)) over a typed catalogue of ~90 compositions, default and statistics-trained regions, two build profiles", "5/C01"),
+ "C02": ("reference-model oracle: all issued indices re-read after every operation of random, long and bounded-exhaustive histories (push / reserve_items / reserve_regions / FlatStack::reserve), two build profiles", "5/C02"),
+ "C03": ("reference-model oracle: FlatStack vs Vec model after every operation (len, get, iterators, size hints, Debug, out-of-bounds must panic) for every index container, two build profiles", "5/C03"),
+ "C04": ("in-crate UTF-8 probe at the unchecked conversion (hook) read after every operation + byte equality of every returned &str + run-time entry-point probe of the compiled Push impls; Miri tier in thorough", "5/C04"),
+ "C05": ("bounded-exhaustive enumeration of push/clear sequences against a Vec model and a u128 stride acceptor, long structured random sequences, cross-profile digest comparison", "5/C05"),
+ "C06": ("reference-model oracle for the Huffman container: measured code lengths vs independent optimal-cost reference, index arithmetic, bounded decode of every item at every bit alignment, refusal of unknown symbols; bounded-exhaustive small alphabets", "5/C06"),
+ "C07": ("reference-model oracle for the dictionary codec over multi-generation merges: exact read-back, refusal only where the model permits it, one-byte cost in two sound regimes (dominant / exact summary)", "5/C07"),
+ "C08": ("twin comparison: cleared object vs Default::default() in lock-step (indices and reads), repeated clear/refill cycles, bounded-exhaustive short (H1,H2) pairs", "5/C08"),
+ "C09": ("triplet comparison: original / clone / clone_from copy under identical then divergent histories (equal continuation, independence of reads)", "5/C09"),
+ "C10": ("twin comparison: history with arbitrary reserve_* calls vs without; merge_regions / merge_capacity results vs Default::default(), coded regions within their acceptance contract", "5/C10"),
+ "C11": ("collapse oracle at every exposed depth: equal consecutive push => same index and no storage growth, otherwise reads back; splits by clear / merge / clone / serde; bounded-exhaustive sequences", "5/C11"),
+ "C12": ("dense-index oracle: k-th push returns k and index k reads row k with its own width, adversarial ragged row orders, across clear / merge", "5/C12"),
+ "C13": ("fail-stop oracle: get(i) in range equals the model, out-of-range positions must panic, on items that have a successor, both representations, FlatStack::get", "5/C13"),
+ "C14": ("law checker: into_owned / borrow_as / clone_onto (arbitrary prior targets) / reborrow / region-to-region push of read items against the owned model", "5/C14"),
+ "C15": ("exhaustive pairwise comparison of read items in every representation against ==/cmp of the owned values, order laws on triples", "5/C15"),
+ "C16": ("twin comparison: original vs JSON round-trip copy in lock-step (indices, reads, used bytes) for regions, FlatStacks and bare index containers", "5/C16"),
+ "C17": ("counting global allocator + capacity snapshots around measured push windows (pre-sized: zero calls, constant capacities; unsized: logarithmic bound); valgrind memcheck cross-check in thorough", "5/C17"),
+ "C18": ("heap_size monitor after every operation: used <= capacity, model lower bound, monotone on push, clear residue compared with doubling and payload-scaling twins", "5/C18"),
+ "C19": ("documented-cost oracle for IndexOptimized / IndexList over the exhaustive alphabet of C05 and random sequences; FlatStack index share compared with the bare region", "5/C19"),
+ "C20": ("twin comparison: region fed a random input form per push vs twin fed the canonical form (indices, used bytes, reads)", "5/C20"),
 }
 LEVEL_TEXT = ("Runtime monitoring: the real crate, rebuilt from /repo's working tree in an overflow-checked and a wrapping "
               "profile, is driven through generated hostile histories while a reference-model oracle at the client boundary "
@@ -52,7 +68,7 @@ def main():
                 "evidence_file": f"/verif/evidence/{pid}.json",
                 "replay_cmd_template": f"./check {pid} --replay {{path}}",
                 "engine": "fcverif",
-                "level_claimed": {"category": "exploration", "text": LEVEL_TEXT, "design_ref": f"DESIGN.md section {ref} ({pid})"},
+                "level_claimed": {"category": "exploration", "text": LEVEL_TEXT, "design_ref": f"DESIGN.md section {ref}"},
                 "level_note": LEVEL_NOTE,
                 "technique": "runtime monitoring: " + tech,
             })
